@@ -173,3 +173,17 @@ package cache
 //@   ensures implies(te != nil && nok, twSets == old(twSets) + 1)
 //@   ensures implies(te == nil, twSets == old(twSets))
 
+
+// cache.New: one configured node -> that node alone; more than one -> a cluster in which EVERY configured node (whatever its
+// weight) joins the ring with exactly its configured weight; every node is built on the caller's barrier, stats, not-found
+// error and options. (Assumed at the call, stated: the ring is in the state AddWithWeight requires - proved for the fresh ring,
+// its preservation by AddWithWeight is covered by the bounded stand-in for the ring.)
+//@ func New
+//@   property C15 C06 C07
+//@   call AddWithWeight#0: assume hash.addReady(dispatcher)
+//@   call AddWithWeight#0: assert arg_weight == node.Weight && arg_node == cn
+//@   call NewNode#*: assert arg_barrier == barrier && arg_st == st && arg_errNotFound == errNotFound && sameSlice(arg_opts, opts)
+//@   call NewNode#0: assert len(c) == 1
+//@   loop 0: invariant dispatcher != nil
+//@   ensures implies(len(c) != 1, typeIs(result, cacheCluster) && result.(cacheCluster).errNotFound == errNotFound && result.(cacheCluster).dispatcher != nil)
+//@   allocates
